@@ -234,5 +234,5 @@ Definition hat (c : Qc) (i : Z) : Qc :=
   let ci := Qctrunc c in let cf := Qcfrac c in
   if i =? ci then (1 - cf)%Qc else if i =? ci + 1 then cf else 0%Qc.
 Definition blob (n : Z) (p : pos) (i : Z) : Qc :=
-  (hat (px p) (cell_x n i) * hat (py p) (cell_y n i))%Qc.
+  if (0 <=? i) && (i <? n * n) then (hat (px p) (cell_x n i) * hat (py p) (cell_y n i))%Qc else 0%Qc.
 Definition blob_list (n : Z) (p : pos) : list Qc := map (blob n p) (zrange (n * n)).
